@@ -12,7 +12,7 @@
 (***************************************************************************)
 EXTENDS Morass, Sequences, TLC, Json, IOUtils
 
-CONSTANTS ResetFastOnClear, TruncateChunkOnClear
+CONSTANTS ResetFastOnClear, TruncateChunkOnClear, FastPathAutoClean
 
 Ops == INSTANCE MorassOps
 
@@ -23,15 +23,16 @@ VARIABLES
   ok,     \* current segment still explained by Morass
   s,      \* MorassOps state of the current segment
   insync, \* s still agrees with the logged internal view
+  acl,    \* AutoClean option of the current segment
   fails,  \* <<event index, reason>> of each rejected segment
   drift   \* event indices where the internal view first differed
 
-tvars == <<mode, held, pos, len, ac, l, ok, s, insync, fails, drift>>
+tvars == <<mode, held, pos, len, ac, l, ok, s, insync, acl, fails, drift>>
 
 TInit ==
   /\ mode = "fill" /\ held = {} /\ pos = 0 /\ len = 0 /\ ac = FALSE
-  /\ l = 1 /\ ok = FALSE /\ insync = FALSE
-  /\ s = Ops!InitState(1, FALSE, FALSE)
+  /\ l = 1 /\ ok = FALSE /\ insync = FALSE /\ acl = FALSE
+  /\ s = Ops!InitState(1, FALSE, FALSE, FALSE)
   /\ fails = <<>> /\ drift = <<>>
 
 Reject(why) ==
@@ -39,14 +40,23 @@ Reject(why) ==
   /\ fails' = Append(fails, <<l, why>>)
   /\ UNCHANGED <<mode, held, pos, len, ac>>
 
+\* C13, residue: what the temporary directory must look like after this call
+\* (ndisk = number of entries in it, -1 if it does not exist).
+ResidueOK(e) ==
+  /\ (e.op = "pull" /\ e.err = "EOF" /\ ac /\ ~acl) => e.ndisk = 0
+  /\ (e.op = "pull" /\ e.err = "EOF" /\ acl) => e.ndisk = -1
+  /\ e.op = "cleanup" => e.ndisk = -1
+
 \* After the abstract step: the logged Pos/Len must be the model's.
 Accept(e) ==
-  /\ ok' = (pos' = e.pos /\ len' = e.len)
-  /\ fails' = IF ok' THEN fails ELSE Append(fails, <<l, "pos/len">>)
+  /\ ok' = (pos' = e.pos /\ len' = e.len /\ ResidueOK(e))
+  /\ fails' = IF ok' THEN fails
+              ELSE Append(fails, <<l, IF ResidueOK(e) THEN "pos/len" ELSE "temporary files left behind">>)
 
 ViewOf(t) ==
   [fast |-> t.fast, chunknil |-> t.chunkNil,
-   chunklen |-> Cardinality(t.chunk), nfiles |-> Len(t.files), pool |-> t.pool]
+   chunklen |-> Cardinality(t.chunk), nfiles |-> Len(t.files), pool |-> t.pool,
+   ndisk |-> IF t.dir THEN t.disk ELSE -1]
 
 \* implementation level: follow the same event in MorassOps and compare views
 ImplStep(e, t) ==
@@ -61,6 +71,7 @@ ImplOf(e) ==
     [] e.op = "pull"     -> IF e.err = "EOF" THEN Ops!PullEOFOf(s)
                             ELSE IF Ops!CanPull(s, e.v) THEN Ops!PullOf(s, e.v) ELSE s
     [] e.op = "clear"    -> Ops!ClearOf(s)
+    [] e.op = "cleanup"  -> Ops!CleanUpOf(s)
     [] OTHER             -> s
 
 Step ==
@@ -69,11 +80,20 @@ Step ==
   /\ LET e == Trace[l] IN
      IF e.op = "reset" THEN
        /\ mode' = "fill" /\ held' = {} /\ pos' = 0 /\ len' = 0 /\ ac' = e.ac
-       /\ ok' = TRUE /\ insync' = TRUE
-       /\ s' = Ops!InitState(e.cs, e.ac, e.conc)
+       /\ ok' = TRUE /\ insync' = TRUE /\ acl' = e.acl
+       /\ s' = Ops!InitState(e.cs, e.ac, e.conc, e.acl)
        /\ UNCHANGED <<fails, drift>>
-     ELSE IF ~ok THEN UNCHANGED <<mode, held, pos, len, ac, ok, s, insync, fails, drift>>
+     ELSE IF e.op = "faultrun" THEN
+       \* C13: a whole run in which one I/O operation was made to fail (or none was reached):
+       \* the failure was reported by some call, or nothing is missing from the sorted output.
+       /\ UNCHANGED <<mode, held, pos, len, ac, ok, s, insync, acl, drift>>
+       /\ fails' = IF /\ e.injected => (e.reported # "" \/ e.complete)
+                      /\ ~e.injected => (e.reported = "" /\ e.complete)
+                     THEN fails
+                     ELSE Append(fails, <<l, "I/O failure hidden: no call reported it and values are missing">>)
+     ELSE IF ~ok THEN UNCHANGED <<mode, held, pos, len, ac, ok, s, insync, acl, fails, drift>>
      ELSE
+       /\ UNCHANGED acl
        /\ ImplStep(e, ImplOf(e))
        /\ CASE e.op = "push" ->
                  IF e.err = "" /\ APushG(e.v) THEN APush(e.v) /\ Accept(e)
@@ -90,6 +110,9 @@ Step ==
             [] e.op = "clear" ->
                  IF e.err = "" /\ AClearG THEN AClear /\ Accept(e)
                  ELSE Reject("clear")
+            [] e.op = "cleanup" ->
+                 IF e.err = "" THEN ADie /\ held' = {} /\ pos' = e.pos /\ len' = e.len /\ Accept(e)
+                 ELSE Reject("cleanup")
             [] OTHER -> Reject("unexplained event")
 
 Done == l = Len(Trace) + 1
